@@ -30,6 +30,7 @@ var (
 	tUnionTag = reflect.TypeOf(schemabuilder.Union{})
 	tEnumI    = reflect.TypeOf(EnumI(0))
 	tEnumS    = reflect.TypeOf(EnumS(""))
+	tEnumAl   = reflect.TypeOf(EnumAl(0))
 	tTMInt    = reflect.TypeOf(TMInt(0))
 	tKeyedK   = reflect.TypeOf(KeyedK{})
 	tPoolB    = reflect.TypeOf(PoolB{})
@@ -57,7 +58,7 @@ var argFieldTypes = []reflect.Type{
 	reflect.TypeOf(int64(0)), reflect.TypeOf(int32(0)), reflect.TypeOf(uint8(0)), reflect.TypeOf(float64(0)),
 	reflect.TypeOf(false), reflect.TypeOf(""), reflect.TypeOf((*string)(nil)), reflect.TypeOf((*int64)(nil)),
 	reflect.TypeOf([]int64(nil)), reflect.TypeOf([]string(nil)), tEnumI, reflect.PtrTo(tEnumS),
-	reflect.SliceOf(tEnumI), reflect.TypeOf(InpA{}), reflect.TypeOf(&InpA{}), reflect.TypeOf([]InpB(nil)),
+	reflect.SliceOf(tEnumI), tEnumAl, reflect.SliceOf(tEnumAl), reflect.TypeOf(InpA{}), reflect.TypeOf(&InpA{}), reflect.TypeOf([]InpB(nil)),
 	tTime, tBytes, reflect.TypeOf(TUnm{}), reflect.TypeOf(&TUnm{}), reflect.TypeOf(NStr("")),
 	reflect.TypeOf((*bool)(nil)), reflect.TypeOf(uint64(0)), reflect.TypeOf(float32(0)),
 }
@@ -224,12 +225,9 @@ func (g *schemaGen) genType(depth int, objs []reflect.Type) reflect.Type {
 			}
 			return reflect.PtrTo(t)
 		case k < 42:
-			if r.Intn(2) == 0 {
-				return tEnumI
-			}
-			return tEnumS
+			return []reflect.Type{tEnumI, tEnumS, tEnumAl}[r.Intn(3)]
 		case k < 44:
-			return reflect.PtrTo(tEnumI)
+			return reflect.PtrTo([]reflect.Type{tEnumI, tEnumAl}[r.Intn(2)])
 		case k < 50:
 			t := pick(r, tmTypes)
 			if t == tTMInt || t == reflect.PtrTo(tTMInt) {
@@ -274,6 +272,10 @@ func newSchemaInst(idx int, r *rand.Rand) *schemaInst {
 	}
 	s.sb.Enum(EnumI(0), enumIMap)
 	s.sb.Enum(EnumS(""), enumSMap)
+	s.sb.Enum(EnumAl(0), enumAlMap) // alias names: LOW/MINIMUM = 0, HIGH/MAXIMUM = 1
+	for _, v := range []EnumAl{0, 1, 2} {
+		s.enumVals[tEnumAl] = append(s.enumVals[tEnumAl], reflect.ValueOf(v))
+	}
 	for _, k := range []string{"ONE", "TWO", "THREE"} {
 		s.enumVals[tEnumI] = append(s.enumVals[tEnumI], reflect.ValueOf(enumIMap[k]))
 	}
@@ -626,7 +628,7 @@ func typeClass(t reflect.Type) string {
 		return "time"
 	case t.Implements(reflect.TypeOf((*interface{ MarshalText() ([]byte, error) })(nil)).Elem()):
 		return "textmarshaler:" + t.Kind().String()
-	case t == tEnumI || t == tEnumS:
+	case t == tEnumI || t == tEnumS || t == tEnumAl:
 		return "enum"
 	case t.Kind() == reflect.Ptr:
 		return "*" + typeClass(t.Elem())
@@ -746,7 +748,7 @@ func (s *schemaInst) batchFunc(f *funcSpec, owner reflect.Type) reflect.Value {
 	if f.hasErr {
 		out = append(out, tErr)
 	}
-	isEnum := f.hasRet && (f.retType == tEnumI || f.retType == tEnumS)
+	isEnum := f.hasRet && (f.retType == tEnumI || f.retType == tEnumS || f.retType == tEnumAl)
 	isTM := f.hasRet && (f.retType == reflect.TypeOf(TMStruct{}) || f.retType == reflect.TypeOf(&TMStruct{}) || f.retType == reflect.TypeOf(&TMPtrOnly{}))
 	ft := reflect.FuncOf(in, out, false)
 	return reflect.MakeFunc(ft, func(args []reflect.Value) []reflect.Value {
